@@ -13,17 +13,25 @@ HARNESSES = {
 
 def run_harnesses(prop, names, tier):
     out = []
-    if tier != "thorough" and os.environ.get("VERIF_KANI") != "1":
-        return out
     env = dict(os.environ)
     env["CARGO_NET_OFFLINE"] = "true"
-    env["CARGO_TARGET_DIR"] = os.path.join(ROOT, "out", "kani-target")
+    outdir = os.environ.get("VERIF_OUT") or os.path.join(ROOT, "out")
+    env["CARGO_TARGET_DIR"] = os.path.join(outdir, "kani-target")
+    crate = os.path.join(ROOT, "kani")
+    if gen.REPO != "/repo":
+        # isolated runs (tools/par_matrix.sh, tools/iso_check.sh): a copy of the harness crate whose path dependency is the scratch copy
+        import shutil
+        crate = os.path.join(outdir, "kani-crate")
+        shutil.rmtree(crate, ignore_errors=True)
+        shutil.copytree(os.path.join(ROOT, "kani"), crate, ignore=shutil.ignore_patterns("target"))
+        ct = os.path.join(crate, "Cargo.toml")
+        open(ct, "w").write(open(ct).read().replace('path = "/repo"', 'path = "%s"' % gen.REPO))
     for h in names:
         meta = HARNESSES[h]
         cmd = ["cargo", "kani", "--harness", h]
         t0 = time.time()
         try:
-            p = subprocess.run(cmd, cwd=os.path.join(ROOT, "kani"), stdout=subprocess.PIPE, stderr=subprocess.STDOUT, text=True, env=env, timeout=meta["timeout"])
+            p = subprocess.run(cmd, cwd=crate, stdout=subprocess.PIPE, stderr=subprocess.STDOUT, text=True, env=env, timeout=meta["timeout"])
             txt = p.stdout
         except subprocess.TimeoutExpired:
             out.append({"harness": h, "status": "undecided", "summary": "timeout after %ds" % meta["timeout"], "cmd": " ".join(cmd),
